@@ -954,3 +954,160 @@ _base_scn_pk = scenarios
 
 def scenarios():
     return _base_scn_pk() + [pkesk_codec(), skesk_codec(), opaque_codec()]
+
+
+def ec_public_codec(clsname):
+    """ECDSAPub / EdDSAPub / ECDHPub (RFC 6637 section 9, 4880bis): parse = one length octet, that many OID octets (handed to the DER
+    decoder as `06 len octets`; the curve is looked up from what it returns), then the point as an MPI read from right after them, the
+    point format the algorithm requires (ECDSA: standard 0x04; EdDSA: native 0x40; ECDH: native on Curve25519, standard otherwise),
+    for ECDH then the KDF parameters; __bytearray__ = DER of the curve's OID without its tag octet, the point, (the KDF parameters).
+    pyasn1's decoder / encoder and the curve table are externals with the stated framing; ECPoint(buffer) is given by contract (it takes
+    k >= 2 octets from the front, in place)."""
+    label = 'C08/fields.%s.parse+__bytearray__' % clsname
+    F = 'pgpy.packet.fields.'
+    cls = F + clsname
+
+    def gen(repo):
+        r = scn.Run(repo, cls, 'parse', label + '[parse]')
+        ex, st = r.ex, r.st
+        OLD = z3.Const('RECEIVED', B)
+        n = OLD[0]
+        st.pc += [z3.Length(OLD) >= 1, n >= 0, n < 256, z3.Length(OLD) >= 1 + n]
+        buf = ex.new_buf(st, OLD)
+        me = E.VObj(cls, 'mat')
+        if clsname == 'ECDHPub':
+            r.set('mat', 'kdf', E.VObj(F + 'ECKDF', 'kdf'))
+        FMT = z3.Int('point_format')
+        is25519 = z3.Bool('the_curve_is_Curve25519')
+        st.pc += [z3.Or(FMT == 0x04, FMT == 0x40, FMT == 0x41, FMT == 0x42)]
+
+        def decode(ex, st, o, a):
+            st.ghost['decoded'] = ex.seq(a[0], st)
+            return [(st, E.VTuple([E.VExt('asn1-oid', ()), E.VBytes(z3.Empty(B))]))]
+        ex.hooks[('ext', 'decoder.decode')] = decode
+
+        def curve(ex, st, c, a):
+            st.ghost['curve_of'] = a[0]
+            return [(st, E.VExt('curve', ()))]
+        r.hook('pgpy.constants.EllipticCurveOID', '__call__', curve)
+        C25519 = E.VExt('curve25519', ())
+        r.hook('pgpy.constants.EllipticCurveOID', 'Curve25519', lambda ex, st, o, a: [(st, C25519)])
+        orig_eq = ex.eq
+
+        def eq_(l, rr, st_):
+            if isinstance(l, E.VExt) and isinstance(rr, E.VExt) and {l.name, rr.name} == {'curve', 'curve25519'}:
+                return is25519
+            return orig_eq(l, rr, st_)
+        ex.eq = eq_
+
+        def point(ex, st, c, a):
+            S = st.heap[a[0].cell]
+            k = E.fresh('point_octets')
+            st.pc += [k >= 2, k <= z3.Length(S)]
+            st.ghost['point_from'] = (a[0], S, k)
+            st.heap[a[0].cell] = z3.Extract(S, k, z3.Length(S) - k)
+            return [(st, E.VObj(F + 'ECPoint', 'point'))]
+        r.hook(F + 'ECPoint', '__call__', point)
+        r.hook(F + 'ECPoint', 'format', scn.const(E.VInt(FMT, enum='pgpy.constants.ECPointFormat')))
+
+        def kdfparse(ex, st, o, a):
+            S = st.heap[a[0].cell]
+            st.ghost['kdf_from'] = (a[0], S)
+            st.pc.append(z3.Length(S) >= 4)
+            st.heap[a[0].cell] = z3.Extract(S, 4, z3.Length(S) - 4)
+            return [(st, E.VNone())]
+        r.hook(F + 'ECKDF', 'parse', scn.method_hook(kdfparse))
+        want_fmt = {'ECDSAPub': FMT == 0x04, 'EdDSAPub': FMT == 0x40, 'ECDHPub': z3.If(is25519, FMT == 0x40, FMT == 0x04)}[clsname]
+        nret = 0
+        for pi, (s, v) in enumerate(r.call(me, [buf])):
+            if isinstance(v, E.Raise):
+                r.oblige(s, 'refused-only-for-a-point-format-the-algorithm-does-not-take(PGPIncompatibleECPointFormatError)/p%d' % pi,
+                         z3.And(z3.BoolVal(v.exc.split(':')[0] == 'PGPIncompatibleECPointFormatError'), z3.Not(want_fmt)), v.where)
+                continue
+            nret += 1
+            r.oblige(s, 'accepted=>the-point-format-is-the-one-the-algorithm-takes/p%d' % pi, want_fmt)
+            dec = s.ghost.get('decoded')
+            r.oblige(s, 'the-OID-octets-go-to-the-DER-decoder-as-06-len-octets/p%d' % pi,
+                     dec == z3.Concat(z3.Unit(z3.IntVal(6)), z3.Unit(n), z3.Extract(OLD, 1, n)) if dec is not None else z3.BoolVal(False))
+            co = s.ghost.get('curve_of')
+            r.oblige(s, 'the-curve-is-looked-up-from-the-decoded-OID/p%d' % pi,
+                     z3.BoolVal(isinstance(co, E.VExt) and co.name == 'asn1-oid' and isinstance(s.heap.get(('mat', 'oid')), E.VExt) and s.heap[('mat', 'oid')].name == 'curve'))
+            pf = s.ghost.get('point_from')
+            okp = pf is not None and pf[0] is buf
+            r.oblige(s, 'the-point-is-read-from-right-after-the-OID-octets/p%d' % pi,
+                     z3.And(z3.BoolVal(okp), pf[1] == z3.Extract(OLD, 1 + n, z3.Length(OLD) - 1 - n) if okp else z3.BoolVal(False)))
+            if clsname == 'ECDHPub':
+                kf = s.ghost.get('kdf_from')
+                okk = kf is not None and okp and kf[0] is buf
+                r.oblige(s, 'the-KDF-parameters-are-read-from-right-after-the-point/p%d' % pi,
+                         z3.And(z3.BoolVal(okk), kf[1] == z3.Extract(OLD, 1 + n + pf[2], z3.Length(OLD) - 1 - n - pf[2]) if okk else z3.BoolVal(False)))
+        r.oblige(st, 'cover-an-accepting-path', z3.BoolVal(nret > 0))
+        res = r.result()
+        # serialisation
+        r2 = scn.Run(repo, cls, '__bytearray__', label + '[bytes]')
+        ex2, st2 = r2.ex, r2.st
+        OIDDER, PT, KDFB = z3.Const('DER_OF_THE_CURVE_OID', B), z3.Const('POINT_MPI', B), z3.Const('KDF_PARAMETERS', B)
+        st2.pc.append(z3.Length(OIDDER) >= 1)
+        cv = E.VExt('curve', ())
+        r2.set('mat', 'oid', cv)
+        h = lambda ex, st, o, a: [(st, E.VExt('oid-value', ()))]
+        h.is_method = False
+        ex2.hooks[('ext:curve', 'value')] = h
+        ex2.hooks[('ext', 'encoder.encode')] = lambda ex, st, o, a: [(st, E.VBytes(OIDDER))] if isinstance(a[0], E.VExt) and a[0].name == 'oid-value' else [(st, E.VBytes(z3.Const('OTHER', B)))]
+        r2.set('mat', 'p', E.VObj(F + 'ECPoint', 'point'))
+        r2.hook(F + 'ECPoint', 'to_mpibytes', scn.method_hook(lambda ex, st, o, a: [(st, E.VBytes(PT))]))
+        if clsname == 'ECDHPub':
+            r2.set('mat', 'kdf', E.VObj(F + 'ECKDF', 'kdf'))
+            r2.hook(F + 'ECKDF', '__bytearray__', scn.method_hook(lambda ex, st, o, a: [(st, ex.new_buf(st, KDFB))]))
+        for pi, (s, v) in enumerate(r2.call(E.VObj(cls, 'mat'), [])):
+            if isinstance(v, E.Raise):
+                r2.oblige(s, 'safety(%s)/p%d' % (v.exc.split(':')[0], pi), z3.BoolVal(False), v.where)
+                continue
+            want = z3.Concat(z3.Extract(OIDDER, 1, z3.Length(OIDDER) - 1), PT) if clsname != 'ECDHPub' else z3.Concat(z3.Extract(OIDDER, 1, z3.Length(OIDDER) - 1), PT, KDFB)
+            r2.oblige(s, 'DER-of-the-OID-without-its-tag-octet,the-point%s/p%d' % (',the-KDF-parameters' if clsname == 'ECDHPub' else '', pi), ex2.seq(v, s) == want)
+        res2 = r2.result()
+        return {'obligations': res['obligations'] + res2['obligations'], 'funcs': res['funcs'] + res2['funcs'], 'paths': 0}
+    return Scenario(label, cls + '.parse', gen, props=('C08', 'C18', 'C14'))
+
+
+def eckdf_codec():
+    """ECKDF (RFC 6637 section 9): 03 01 hash cipher, in both directions"""
+    label = 'C08/fields.ECKDF.parse+__bytearray__'
+    cls = 'pgpy.packet.fields.ECKDF'
+
+    def gen(repo):
+        r = scn.Run(repo, cls, 'parse', label + '[parse]')
+        ex, st = r.ex, r.st
+        OLD = z3.Const('RECEIVED', B)
+        HA = sorted(set(repo.enum_members('pgpy.constants.HashAlgorithm').values()))
+        SA = sorted(set(repo.enum_members('pgpy.constants.SymmetricKeyAlgorithm').values()))
+        st.pc += [z3.Length(OLD) >= 4, OLD[0] == 3, OLD[1] == 1, z3.Or(*[OLD[2] == x for x in HA]), z3.Or(*[OLD[3] == x for x in SA])]
+        buf = ex.new_buf(st, OLD)
+        for pi, (s, v) in enumerate(r.call(E.VObj(cls, 'kdf'), [buf])):
+            if isinstance(v, E.Raise):
+                r.oblige(s, 'safety(%s)/p%d' % (v.exc.split(':')[0], pi), z3.BoolVal(False), v.where)
+                continue
+            g = lambda f: s.heap.get(('kdf', f))
+            r.oblige(s, 'hash-is-the-third,cipher-the-fourth-octet/p%d' % pi, z3.And(ex.as_int(g('_halg')) == OLD[2], ex.as_int(g('_encalg')) == OLD[3]))
+            r.oblige(s, 'consumes-exactly-four-octets/p%d' % pi, s.heap[buf.cell] == z3.Extract(OLD, 4, z3.Length(OLD) - 4))
+        res = r.result()
+        r2 = scn.Run(repo, cls, '__bytearray__', label + '[bytes]')
+        H, C = z3.Ints('hash cipher')
+        r2.st.pc += [H >= 0, H < 256, C >= 0, C < 256]
+        r2.set('kdf', '_halg', E.VInt(H, enum='pgpy.constants.HashAlgorithm'))
+        r2.set('kdf', '_encalg', E.VInt(C, enum='pgpy.constants.SymmetricKeyAlgorithm'))
+        for pi, (s, v) in enumerate(r2.call(E.VObj(cls, 'kdf'), [])):
+            if isinstance(v, E.Raise):
+                r2.oblige(s, 'safety(%s)/p%d' % (v.exc.split(':')[0], pi), z3.BoolVal(False), v.where)
+                continue
+            r2.oblige(s, '03-01-hash-cipher/p%d' % pi, r2.ex.seq(v, s) == cat(U(3), U(1), U(H), U(C)))
+        res2 = r2.result()
+        return {'obligations': res['obligations'] + res2['obligations'], 'funcs': res['funcs'] + res2['funcs'], 'paths': 0}
+    return Scenario(label, cls + '.parse', gen, props=('C08', 'C03'))
+
+
+_base_scn_ecpub = scenarios
+
+
+def scenarios():
+    return _base_scn_ecpub() + [ec_public_codec(c) for c in ('ECDSAPub', 'EdDSAPub', 'ECDHPub')] + [eckdf_codec()]
